@@ -1,7 +1,846 @@
-//! C06 — not built yet.
+//! C06 — layout fixes change only layout.
+//!
+//! For every (dialect, layout configuration, input): run `fix` with `rules = layout` while the
+//! `verif_hook` of the fix loop records every applied batch (rule, fixes, tree before, tree after).
+//!  * correspondence `batch`: Gallina `apply_batch before fixes` must equal the real `after` tree
+//!    (ids, kinds, classes, raws, structure);
+//!  * correspondence `run`: Gallina `run` over all batches of a file must end in the real final tree
+//!    (acceptance by `previous_versions`) and `run_okb` must agree with the monitors below;
+//!  * monitors (hypotheses of the theorems, evaluated on the real trees): `ids_unique`, `edits_fresh`,
+//!    `single_anchor`, `code_neutral` per batch, `no_source_fixes`, `relex_stable` per final tree;
+//!  * direct: code tokens of lex(source) vs lex(fix(source)), comment multiset, final tree vs lex(fix(source)).
+//! The recording/conversion helpers are `pub`: c05.rs uses them too.
+use std::cell::RefCell;
+use std::collections::{HashMap, HashSet};
+
+use serde_json::{Value, json};
+use sqruff_lib::core::config::FluffConfig;
+use sqruff_lib::core::linter::core::Linter;
+use sqruff_lib::core::linter::core::verif_hook::{FIX_HOOK, FixEvent};
+use sqruff_lib_core::edit_type::EditType;
+use sqruff_lib_core::lint_fix::LintFix;
+use sqruff_lib_core::parser::lexer::StringOrTemplate;
+use sqruff_lib_core::parser::segments::base::{ErasedSegment, Tables};
+
 use crate::common::*;
 
-pub fn main(_args: &Args) {
-    eprintln!("c06: not built yet");
-    std::process::exit(2);
+// ------------------------------------------------------------------ recording the fix loop
+pub struct BatchRec {
+    pub phase: String,
+    pub pass: usize,
+    pub rule: &'static str,
+    pub fixes: Vec<LintFix>,
+    pub before: ErasedSegment,
+    pub after: ErasedSegment,
+    pub accepted: bool,
+}
+#[derive(Default)]
+pub struct Recorded {
+    pub start: Option<ErasedSegment>,
+    pub batches: Vec<BatchRec>,
+    pub end: Option<ErasedSegment>,
+}
+thread_local! {
+    static REC: RefCell<Recorded> = RefCell::new(Recorded::default());
+}
+pub fn install_hook() {
+    FIX_HOOK.with(|h| {
+        *h.borrow_mut() = Some(Box::new(|ev| {
+            REC.with(|r| {
+                let mut r = r.borrow_mut();
+                match ev {
+                    FixEvent::Start { tree, .. } => {
+                        *r = Recorded::default();
+                        r.start = Some(tree.clone());
+                    }
+                    FixEvent::Batch { phase, pass, rule, fixes, before, after, accepted } => r.batches.push(BatchRec {
+                        phase: format!("{:?}", phase),
+                        pass,
+                        rule,
+                        fixes: fixes.to_vec(),
+                        before: before.clone(),
+                        after: after.clone(),
+                        accepted,
+                    }),
+                    FixEvent::PassEnd { .. } => {}
+                    FixEvent::End { tree } => r.end = Some(tree.clone()),
+                }
+            })
+        }));
+    });
+}
+pub fn take_rec() -> Recorded {
+    REC.with(|r| std::mem::take(&mut *r.borrow_mut()))
+}
+
+// ------------------------------------------------------------------ owned trees
+#[derive(Clone, PartialEq, Debug)]
+pub enum T {
+    Leaf { id: u32, kind: usize, cls: u8, raw: String },
+    Node { id: u32, kind: usize, cs: Vec<T> },
+}
+pub fn cls_of(seg: &ErasedSegment) -> u8 {
+    if seg.is_comment() {
+        1
+    } else if seg.is_code() {
+        0
+    } else {
+        2
+    }
+}
+pub fn conv(seg: &ErasedSegment) -> T {
+    if seg.segments().is_empty() {
+        T::Leaf { id: seg.id(), kind: seg.get_type() as usize, cls: cls_of(seg), raw: seg.raw().to_string() }
+    } else {
+        T::Node { id: seg.id(), kind: seg.get_type() as usize, cs: seg.segments().iter().map(conv).collect() }
+    }
+}
+impl T {
+    pub fn id(&self) -> u32 {
+        match self {
+            T::Leaf { id, .. } | T::Node { id, .. } => *id,
+        }
+    }
+    pub fn all_ids(&self, out: &mut Vec<u32>) {
+        out.push(self.id());
+        if let T::Node { cs, .. } = self {
+            for c in cs {
+                c.all_ids(out);
+            }
+        }
+    }
+    pub fn desc_ids(&self, out: &mut Vec<u32>) {
+        if let T::Node { cs, .. } = self {
+            for c in cs {
+                c.all_ids(out);
+            }
+        }
+    }
+    pub fn leaves<'a>(&'a self, out: &mut Vec<(u8, &'a str)>) {
+        match self {
+            T::Leaf { cls, raw, .. } => out.push((*cls, raw.as_str())),
+            T::Node { cs, .. } => {
+                for c in cs {
+                    c.leaves(out)
+                }
+            }
+        }
+    }
+    pub fn n_leaves(&self) -> usize {
+        let mut v = vec![];
+        self.leaves(&mut v);
+        v.len()
+    }
+    pub fn raw(&self) -> String {
+        let mut v = vec![];
+        self.leaves(&mut v);
+        v.iter().map(|x| x.1).collect()
+    }
+    pub fn code_seq(&self) -> Vec<String> {
+        let mut v = vec![];
+        self.leaves(&mut v);
+        v.iter().filter(|x| x.0 == 0).map(|x| x.1.to_string()).collect()
+    }
+    pub fn comments_sorted(&self) -> Vec<String> {
+        let mut v = vec![];
+        self.leaves(&mut v);
+        let mut c: Vec<String> = v.iter().filter(|x| x.0 == 1).map(|x| x.1.to_string()).collect();
+        c.sort();
+        c
+    }
+    pub fn g(&self, o: &mut String) {
+        match self {
+            T::Leaf { id, kind, cls, raw } => {
+                o.push_str(&format!("(Leaf {} {} {} {})", id, kind, cls, g_str(raw)));
+            }
+            T::Node { id, kind, cs } => {
+                o.push_str(&format!("(Node {} {} [", id, kind));
+                for (i, c) in cs.iter().enumerate() {
+                    if i > 0 {
+                        o.push(';');
+                    }
+                    c.g(o);
+                }
+                o.push_str("])");
+            }
+        }
+    }
+    pub fn gs(&self) -> String {
+        let mut o = String::new();
+        self.g(&mut o);
+        o
+    }
+}
+pub fn ids_unique(t: &T) -> bool {
+    let mut v = vec![];
+    t.all_ids(&mut v);
+    let n = v.len();
+    let s: HashSet<u32> = v.into_iter().collect();
+    s.len() == n
+}
+
+pub fn etype_g(e: EditType) -> &'static str {
+    match e {
+        EditType::CreateBefore => "CreateBefore",
+        EditType::CreateAfter => "CreateAfter",
+        EditType::Replace => "Replace",
+        EditType::Delete => "Delete",
+    }
+}
+pub fn fix_g(f: &LintFix) -> String {
+    let mut o = format!("(mkfix {} {} {} {} [", etype_g(f.edit_type), f.anchor.id(), f.anchor.get_type() as usize, g_str(f.anchor.raw()));
+    for (i, e) in f.edit.iter().enumerate() {
+        if i > 0 {
+            o.push(';');
+        }
+        conv(e).g(&mut o);
+    }
+    o.push_str("])");
+    o
+}
+pub fn fix_j(f: &LintFix) -> Value {
+    json!({"type": etype_g(f.edit_type), "anchor": f.anchor.id(), "anchor_raw": trunc(f.anchor.raw(), 40),
+           "edit": f.edit.iter().map(|e| trunc(e.raw(), 40)).collect::<Vec<_>>()})
+}
+
+/// The monitored hypotheses of one batch, computed on the real objects.
+pub struct BatchMon {
+    pub ids_unique: bool,
+    pub edits_fresh: bool,
+    pub single_anchor: bool,
+    pub code_neutral: bool,
+    pub no_source_fixes: bool,
+}
+impl BatchMon {
+    pub fn all(&self) -> bool {
+        self.ids_unique && self.edits_fresh && self.single_anchor && self.code_neutral
+    }
+}
+pub fn monitor_batch(b: &BatchRec, before: &T, after: &T) -> BatchMon {
+    let keys: HashSet<u32> = b.fixes.iter().map(|f| f.anchor.id()).collect();
+    let mut fresh = true;
+    let mut nsf = b.before.get_source_fixes().is_empty() && b.after.get_source_fixes().is_empty();
+    for f in &b.fixes {
+        for e in &f.edit {
+            let mut d = vec![];
+            conv(e).desc_ids(&mut d);
+            if d.iter().any(|i| keys.contains(i)) {
+                fresh = false;
+            }
+            if !e.get_source_fixes().is_empty() {
+                nsf = false;
+            }
+        }
+    }
+    // entries after the real deduplication (LintFix: PartialEq)
+    let mut entries: Vec<(u32, Vec<&LintFix>)> = vec![];
+    for f in &b.fixes {
+        let id = f.anchor.id();
+        let pos = match entries.iter().position(|e| e.0 == id) {
+            Some(p) => p,
+            None => {
+                entries.push((id, vec![]));
+                entries.len() - 1
+            }
+        };
+        if !entries[pos].1.iter().any(|g| *g == f) {
+            entries[pos].1.push(f);
+        }
+    }
+    let mut single = true;
+    for (_, fs) in &entries {
+        let n = fs.len();
+        let uses = fs.iter().filter(|f| f.edit_type == EditType::CreateBefore || (f.edit_type == EditType::CreateAfter && n == 1)).count();
+        if uses > 1 {
+            single = false;
+        }
+    }
+    BatchMon {
+        ids_unique: ids_unique(before),
+        edits_fresh: fresh,
+        single_anchor: single,
+        code_neutral: before.code_seq() == after.code_seq() && before.comments_sorted() == after.comments_sorted(),
+        no_source_fixes: nsf,
+    }
+}
+
+// ------------------------------------------------------------------ lexing
+/// (cls, raw) of every lexer token with a non-empty raw.
+pub fn lex_tokens(linter: &Linter, text: &str) -> Result<Vec<(u8, String)>, String> {
+    let tables = Tables::default();
+    let dialect = linter.config().get_dialect();
+    let r = catch(|| dialect.lexer().lex(&tables, StringOrTemplate::String(text)));
+    match r {
+        Ok(Ok((toks, errs))) => {
+            if !errs.is_empty() {
+                return Err(format!("{} lex errors", errs.len()));
+            }
+            Ok(toks.iter().filter(|t| !t.raw().is_empty()).map(|t| (cls_of(t), t.raw().to_string())).collect())
+        }
+        Ok(Err(e)) => Err(format!("lex error: {:?}", e)),
+        Err(p) => Err(format!("lex panic: {}", p)),
+    }
+}
+pub fn code_of(toks: &[(u8, String)]) -> Vec<String> {
+    toks.iter().filter(|t| t.0 == 0).map(|t| t.1.clone()).collect()
+}
+pub fn comments_of(toks: &[(u8, String)]) -> Vec<String> {
+    let mut c: Vec<String> = toks.iter().filter(|t| t.0 == 1).map(|t| t.1.clone()).collect();
+    c.sort();
+    c
+}
+
+pub fn fnv(s: &str) -> String {
+    let mut h: u64 = 0xcbf29ce484222325;
+    for b in s.as_bytes() {
+        h ^= *b as u64;
+        h = h.wrapping_mul(0x100000001b3);
+    }
+    format!("{:012x}", h & 0xffff_ffff_ffff)
+}
+
+/// Key of a text-level failure: the two source code tokens at the first place where the code
+/// token sequences part (the fusion / swallowing site), independent of layout config and whitespace.
+pub fn site_key(dialect: &str, a: &[String], b: &[String]) -> String {
+    let n = a.len().min(b.len());
+    let mut i = 0;
+    while i < n && a[i] == b[i] {
+        i += 1;
+    }
+    let tok = |k: usize| -> String {
+        a.get(k).map(|s| s.chars().filter(|c| !c.is_whitespace()).take(24).collect::<String>()).unwrap_or_else(|| "<end>".into())
+    };
+    format!("c06:site:{}:{}+{}", dialect, tok(i), tok(i + 1))
+}
+
+/// first index where two sequences differ, with a little context
+pub fn first_diff(a: &[String], b: &[String]) -> String {
+    let n = a.len().min(b.len());
+    let mut i = 0;
+    while i < n && a[i] == b[i] {
+        i += 1;
+    }
+    let ctx = |v: &[String]| v[i.saturating_sub(2)..(i + 3).min(v.len())].iter().map(|s| trunc(s, 30)).collect::<Vec<_>>();
+    format!("at code token {}: before {:?} after {:?} (lengths {} / {})", i, ctx(a), ctx(b), a.len(), b.len())
+}
+
+// ------------------------------------------------------------------ input perturbations
+/// Replace every whitespace/newline run by `f(run, after_inline_comment)`.
+pub fn map_ws_runs(toks: &[(u8, String)], kinds_ws: &dyn Fn(&str) -> bool, mut f: impl FnMut(&str, bool) -> String) -> String {
+    let mut out = String::new();
+    let mut i = 0;
+    let mut prev_inline = false;
+    while i < toks.len() {
+        if toks[i].0 == 2 && kinds_ws(&toks[i].1) {
+            let mut run = String::new();
+            while i < toks.len() && toks[i].0 == 2 && kinds_ws(&toks[i].1) {
+                run.push_str(&toks[i].1);
+                i += 1;
+            }
+            out.push_str(&f(&run, prev_inline));
+            prev_inline = false;
+        } else {
+            prev_inline = toks[i].0 == 1 && (toks[i].1.starts_with("--") || toks[i].1.starts_with('#') || toks[i].1.starts_with("//"));
+            out.push_str(&toks[i].1);
+            i += 1;
+        }
+    }
+    out
+}
+fn is_ws_text(s: &str) -> bool {
+    !s.is_empty() && s.bytes().all(is_ascii_ws)
+}
+pub fn scramble(toks: &[(u8, String)], rng: &mut Rng) -> String {
+    const W: &[&str] = &[" ", "  ", "\n", "\n    ", "   \n ", "\t", "\n\n", " \n  ", "     "];
+    map_ws_runs(toks, &is_ws_text, |_run, after_inline| {
+        let w = W[rng.below(W.len())];
+        if after_inline && !w.contains('\n') { format!("\n{}", w) } else { w.to_string() }
+    })
+}
+pub fn collapse(toks: &[(u8, String)]) -> String {
+    map_ws_runs(toks, &is_ws_text, |run, after_inline| {
+        if after_inline && run.contains('\n') { "\n".to_string() } else { " ".to_string() }
+    })
+}
+
+// ------------------------------------------------------------------ configurations
+pub struct LayoutCfg {
+    pub name: &'static str,
+    pub body: &'static str,
+}
+pub const LAYOUT_CFGS: &[LayoutCfg] = &[
+    LayoutCfg { name: "default", body: "" },
+    LayoutCfg { name: "tab-indent", body: "[sqruff:indentation]\nindent_unit = tab\n" },
+    LayoutCfg { name: "indent2", body: "[sqruff:indentation]\ntab_space_size = 2\n" },
+    LayoutCfg { name: "comma-leading", body: "[sqruff:layout:type:comma]\nspacing_before = touch\nline_position = leading\n" },
+    LayoutCfg { name: "operator-trailing", body: "[sqruff:layout:type:binary_operator]\nspacing_within = touch\nline_position = trailing\n[sqruff:layout:type:comparison_operator]\nspacing_within = touch\nline_position = trailing\n" },
+    LayoutCfg { name: "maxlen40", body: "max_line_length = 40\n" },
+    LayoutCfg { name: "maxlen20-after", body: "max_line_length = 20\n[sqruff:indentation]\ntrailing_comments = after\n" },
+    LayoutCfg { name: "maxlen0", body: "max_line_length = 0\n" },
+    LayoutCfg { name: "comma-leading-maxlen30-tab", body: "max_line_length = 30\n[sqruff:indentation]\nindent_unit = tab\ntrailing_comments = after\n[sqruff:layout:type:comma]\nspacing_before = touch\nline_position = leading\n" },
+];
+pub fn layout_cfg_by_name(name: &str) -> &'static LayoutCfg {
+    LAYOUT_CFGS.iter().find(|c| c.name == name).unwrap_or(&LAYOUT_CFGS[0])
+}
+pub fn mk_linter(dialect: &str, rules: &str, cfg: &LayoutCfg) -> Linter {
+    // keys of the [sqruff] section come first; cfg.body may start with such keys
+    let (core_keys, sections): (String, String) = match cfg.body.find('[') {
+        Some(0) => (String::new(), cfg.body.to_string()),
+        Some(p) => (cfg.body[..p].to_string(), cfg.body[p..].to_string()),
+        None => (cfg.body.to_string(), String::new()),
+    };
+    let src = format!("[sqruff]\ndialect = {}\nrules = {}\n{}{}", dialect, rules, core_keys, sections);
+    Linter::new(FluffConfig::from_source(&src, None), None, None, true)
+}
+
+pub type Linters = HashMap<(String, String, String), Linter>;
+pub fn linter<'a>(ls: &'a mut Linters, dialect: &str, rules: &str, cfg: &'static LayoutCfg) -> &'a Linter {
+    // every Linter owns an expanded dialect grammar (several MB): bound the per-thread cache
+    if ls.len() >= 12 && !ls.contains_key(&(dialect.to_string(), rules.to_string(), cfg.name.to_string())) {
+        ls.clear();
+    }
+    ls.entry((dialect.to_string(), rules.to_string(), cfg.name.to_string())).or_insert_with(|| mk_linter(dialect, rules, cfg))
+}
+
+// ------------------------------------------------------------------ one item
+pub struct Item {
+    pub cls: &'static str,
+    pub dialect: String,
+    pub cfg: &'static LayoutCfg,
+    pub sql: String,
+    pub emit_cases: bool,
+    /// > 0: do not lint; parse and drive `apply_fixes` directly with this many synthetic batches
+    pub synth: usize,
+}
+
+const MAX_CASE_LEAVES: usize = 260;
+const MAX_RUN_LEAVES: usize = 120;
+
+fn run_one(ls: &mut Linters, it: &Item, out: &mut Buf) {
+    if it.synth > 0 {
+        return run_synth(ls, it, out);
+    }
+    let lt = linter(ls, &it.dialect, "layout", it.cfg);
+    let input = json!({"dialect": it.dialect, "cfg": it.cfg.name, "sql": it.sql});
+    out.count("inputs", 1);
+    let src_toks = match lex_tokens(lt, &it.sql) {
+        Ok(t) => t,
+        Err(_) => {
+            out.count("skipped_unlexable_source", 1);
+            return;
+        }
+    };
+    install_hook();
+    let r = catch(|| {
+        let lf = lt.lint_string(&it.sql, None, true);
+        lf.fix_string()
+    });
+    let rec = take_rec();
+    let fixed = match r {
+        Ok(s) => s,
+        Err(_) => {
+            // a crash of fix is C03's subject; nothing to observe for C06
+            out.count("skipped_fix_panicked", 1);
+            return;
+        }
+    };
+    let (Some(start), Some(end)) = (rec.start.as_ref(), rec.end.as_ref()) else {
+        out.count("skipped_no_tree", 1);
+        return;
+    };
+    let t0 = conv(start);
+    let tf = conv(end);
+    if std::env::var("SQV_SHOW").is_ok() {
+        fn show(s: &ErasedSegment, d: usize) {
+            eprintln!("{}{:?} #{} {:?}", "  ".repeat(d), s.get_type(), s.id(), if s.segments().is_empty() { s.raw().to_string() } else { String::new() });
+            for c in s.segments() {
+                show(c, d + 1);
+            }
+        }
+        show(start, 0);
+        for b in &rec.batches {
+            {
+                let mut v = vec![];
+                conv(&b.before).all_ids(&mut v);
+                let mut seen = HashSet::new();
+                let dups: Vec<u32> = v.iter().filter(|i| !seen.insert(**i)).cloned().collect();
+                if !dups.is_empty() {
+                    eprintln!("DUP IDS before {} pass {}: {:?}", b.rule, b.pass, dups);
+                }
+            }
+            if std::env::var("SQV_SHOW").map(|v| v == b.rule).unwrap_or(false) {
+                show(&b.before, 0);
+            }
+            eprintln!("BATCH {} pass {} accepted {}: {}", b.rule, b.pass, b.accepted, serde_json::to_string(&b.fixes.iter().map(fix_j).collect::<Vec<_>>()).unwrap());
+        }
+        eprintln!("FIXED: {:?}", fixed);
+    }
+    let hkey = fnv(&it.sql);
+    out.hyp("parsed_tree_spells_source", "blocking", t0.raw() == it.sql.replace("\r\n", "\n"), json!({"input": input}));
+    out.hyp("parsed_tree_holds_lexed_tokens", "blocking", t0.code_seq() == code_of(&src_toks) && t0.comments_sorted() == comments_of(&src_toks), json!({"input": input}));
+    out.count("batches", rec.batches.len());
+    if !rec.batches.is_empty() {
+        out.count("inputs_with_fixes", 1);
+    }
+
+    // ---- per batch: monitors + correspondence
+    let mut all_ok = true;
+    let mut convs: Vec<(T, T)> = vec![];
+    for b in &rec.batches {
+        let before = conv(&b.before);
+        let after = conv(&b.after);
+        let m = monitor_batch(b, &before, &after);
+        let ex = |what: &str| json!({"input": input, "rule": b.rule, "pass": b.pass, "what": what, "fixes": b.fixes.iter().take(6).map(fix_j).collect::<Vec<_>>()});
+        out.hyp("ids_unique", "blocking", m.ids_unique, ex("ids_unique"));
+        out.hyp("edits_fresh", "blocking", m.edits_fresh, ex("edits_fresh"));
+        out.hyp("single_anchor", "blocking", m.single_anchor, ex("single_anchor"));
+        out.hyp("no_source_fixes", "blocking", m.no_source_fixes, ex("no_source_fixes"));
+        if !m.code_neutral {
+            let msg = format!("batch of {} (pass {}) is not code-neutral: {}", b.rule, b.pass, first_diff(&before.code_seq(), &after.code_seq()));
+            out.direct("batch-code-neutral", false, &format!("c06:neutral:{}:{}:{}", it.dialect, b.rule, hkey), &msg, input.clone());
+        } else {
+            out.direct("batch-code-neutral", true, "", "", Value::Null);
+        }
+        all_ok &= m.all();
+        out.count(&format!("batches_{}", b.rule), 1);
+        convs.push((before, after));
+    }
+    // ---- the loop threads the tree as the model says: the next batch starts from the previous
+    // result iff that result's text was new, else from the unchanged tree; the run ends there too
+    {
+        let mut seen: HashSet<String> = HashSet::new();
+        seen.insert(t0.raw());
+        let mut cur: &T = &t0;
+        for (k, b) in rec.batches.iter().enumerate() {
+            let (before, after) = &convs[k];
+            let ex = || json!({"input": input, "batch": k, "rule": b.rule, "pass": b.pass});
+            out.hyp("loop_threads_tree", "blocking", before == cur, ex());
+            let fresh_text = seen.insert(after.raw());
+            out.hyp("acceptance_is_unseen_text", "blocking", b.accepted == fresh_text, ex());
+            if fresh_text {
+                cur = after;
+            }
+        }
+        out.hyp("loop_threads_tree", "blocking", &tf == cur, json!({"input": input, "batch": "end"}));
+        // the final tree too must have unique ids (the next fix run, e.g. in the LSP, starts from it)
+        out.hyp("ids_unique", "blocking", ids_unique(&tf), json!({"input": input, "what": "ids_unique of the final tree"}));
+    }
+    if it.emit_cases {
+        for (k, b) in rec.batches.iter().enumerate() {
+            let (before, after) = &convs[k];
+            if before.n_leaves() > MAX_CASE_LEAVES {
+                out.count("batch_cases_skipped_size", 1);
+                continue;
+            }
+            let args = g_tuple(&[before.gs(), g_list(b.fixes.iter().map(fix_g))]);
+            let exp = after.gs();
+            let kinds: HashSet<&str> = b.fixes.iter().map(|f| etype_g(f.edit_type)).collect();
+            let sample = json!({"input": input, "rule": b.rule, "pass": b.pass, "n_fixes": b.fixes.len(), "fixes": b.fixes.iter().take(8).map(fix_j).collect::<Vec<_>>()});
+            out.case("batch", &format!("{}:{}", it.cls, b.rule), kinds.len() >= 2 || b.fixes.len() >= 3, args, exp, sample);
+        }
+        if t0.n_leaves() <= MAX_RUN_LEAVES && !rec.batches.is_empty() && rec.batches.len() <= 30 {
+            let args = g_tuple(&[t0.gs(), g_list(rec.batches.iter().map(|b| g_list(b.fixes.iter().map(fix_g))))]);
+            let exp = g_tuple(&[tf.gs(), g_bool(all_ok)]);
+            let n_rej = rec.batches.iter().filter(|b| !b.accepted).count();
+            let sample = json!({"input": input, "batches": rec.batches.len(), "rejected": n_rej, "rules": rec.batches.iter().map(|b| b.rule).collect::<Vec<_>>()});
+            out.case("run", it.cls, rec.batches.len() >= 2, args, exp, sample);
+            if n_rej > 0 {
+                out.count("runs_with_rejected_batch", 1);
+            }
+        }
+    }
+
+    // ---- final tree: re-lex stability, and the property itself on the text
+    match lex_tokens(lt, &fixed) {
+        Err(e) => {
+            out.direct("text", false, &format!("c06:unlexable-output:{}:{}", it.dialect, hkey), &format!("fix output does not lex: {}", e), input.clone());
+        }
+        Ok(fx_toks) => {
+            let relex = code_of(&fx_toks) == tf.code_seq() && comments_of(&fx_toks) == tf.comments_sorted();
+            out.hyp("relex_stable", "diagnostic", relex, json!({"input": input}));
+            let code_ok = code_of(&src_toks) == code_of(&fx_toks);
+            let comm_ok = comments_of(&src_toks) == comments_of(&fx_toks);
+            let key = if !code_ok {
+                site_key(&it.dialect, &code_of(&src_toks), &code_of(&fx_toks))
+            } else if !comm_ok {
+                format!("c06:comments:{}:{}", it.dialect, hkey)
+            } else {
+                site_key(&it.dialect, &tf.code_seq(), &code_of(&fx_toks))
+            };
+            if !code_ok {
+                let msg = format!("code tokens changed by layout fix: {}", first_diff(&code_of(&src_toks), &code_of(&fx_toks)));
+                out.direct("text-code", false, &key, &msg, input.clone());
+            } else {
+                out.direct("text-code", true, "", "", Value::Null);
+            }
+            if !comm_ok {
+                out.direct("text-comments", false, &key, "comment multiset changed by layout fix", input.clone());
+            } else {
+                out.direct("text-comments", true, "", "", Value::Null);
+            }
+            if !relex {
+                let msg = format!("final tree and lex(fix(source)) differ: {}", first_diff(&tf.code_seq(), &code_of(&fx_toks)));
+                out.direct("tree-vs-relex", false, &key, &msg, input.clone());
+            } else {
+                out.direct("tree-vs-relex", true, "", "", Value::Null);
+            }
+            out.hyp("fixed_is_final_tree_text", "blocking", fixed == tf.raw(), json!({"input": input}));
+            if fixed != it.sql {
+                out.count("inputs_changed_by_fix", 1);
+            }
+        }
+    }
+}
+
+
+// ------------------------------------------------------------------ synthetic batches, kernel level
+/// Drive `compute_anchor_edit_info` + `ErasedSegment::apply_fixes` directly (public API) with random
+/// batches over a real parsed tree: every edit type, pairs in both orders, duplicates, conflicting
+/// entries, anchors on tokens / nodes / the root / a segment that is not in the tree, fresh and
+/// moved (same id) edit segments, edit nodes. Group `synth`: Gallina `apply_batch` must equal the result.
+fn run_synth(ls: &mut Linters, it: &Item, out: &mut Buf) {
+    use sqruff_lib_core::dialects::syntax::SyntaxKind;
+    use sqruff_lib_core::linter::compute_anchor_edit_info;
+    use sqruff_lib_core::parser::segments::base::SegmentBuilder;
+    let lt = linter(ls, &it.dialect, "layout", it.cfg);
+    let tables = Tables::default();
+    let Ok(Ok(parsed)) = catch(|| lt.parse_string(&tables, &it.sql, None)) else {
+        out.count("synth_skipped_unparsed", 1);
+        return;
+    };
+    let Some(tree) = parsed.tree else { return };
+    let before = conv(&tree);
+    if before.n_leaves() > 90 {
+        return;
+    }
+    let all = tree.recursive_crawl_all(false);
+    if all.len() < 4 {
+        return;
+    }
+    let mut rng = Rng::new(u64::from_str_radix(&fnv(&it.sql), 16).unwrap_or(7));
+    for round in 0..it.synth {
+        let fresh = |rng: &mut Rng| -> ErasedSegment {
+            let id = tables.next_id();
+            match rng.below(5) {
+                0 => SegmentBuilder::whitespace(id, " "),
+                1 => SegmentBuilder::newline(id, "\n"),
+                2 => SegmentBuilder::whitespace(id, "    "),
+                3 => SegmentBuilder::token(id, "-- c", SyntaxKind::InlineComment).finish(),
+                _ => SegmentBuilder::keyword(id, "KW"),
+            }
+        };
+        let edit = |rng: &mut Rng| -> Vec<ErasedSegment> {
+            let n = rng.range(1, 2);
+            (0..n)
+                .map(|_| if rng.chance(1, 6) { all[rng.range(1, all.len() - 1)].clone() } else { fresh(rng) })
+                .collect()
+        };
+        let mut fixes: Vec<LintFix> = vec![];
+        let n_anchor = rng.range(1, 5);
+        for _ in 0..n_anchor {
+            let a = match rng.below(20) {
+                0 => all[0].clone(),                                 // the root: never met
+                1 => SegmentBuilder::whitespace(tables.next_id(), " "), // not in the tree: dropped
+                _ => all[rng.range(1, all.len() - 1)].clone(),
+            };
+            match rng.below(12) {
+                11 => {
+                    // a same-raw replacement (`is_just_source_edit`), sometimes after another replace:
+                    // the latter is the `unimplemented!()` of AnchorEditInfo::add
+                    if rng.chance(1, 2) {
+                        fixes.push(LintFix::replace(a.clone(), edit(&mut rng), None));
+                    }
+                    fixes.push(LintFix::replace(a.clone(), vec![a], None));
+                }
+                0 => fixes.push(LintFix::delete(a)),
+                1 => fixes.push(LintFix::replace(a, edit(&mut rng), None)),
+                2 => fixes.push(LintFix::create_before(a, edit(&mut rng))),
+                3 => fixes.push(LintFix::create_after(a, edit(&mut rng), None)),
+                4 => {
+                    fixes.push(LintFix::create_before(a.clone(), edit(&mut rng)));
+                    fixes.push(LintFix::create_after(a, edit(&mut rng), None));
+                }
+                5 => {
+                    fixes.push(LintFix::create_after(a.clone(), edit(&mut rng), None));
+                    fixes.push(LintFix::create_before(a, edit(&mut rng)));
+                }
+                6 => {
+                    // the same fix twice (deduplicated by PartialEq: same raws)
+                    let e = vec![SegmentBuilder::whitespace(tables.next_id(), " ")];
+                    let e2 = vec![SegmentBuilder::whitespace(tables.next_id(), " ")];
+                    fixes.push(LintFix::create_after(a.clone(), e, None));
+                    fixes.push(LintFix::create_after(a, e2, None));
+                }
+                7 => {
+                    fixes.push(LintFix::create_after(a.clone(), edit(&mut rng), None));
+                    fixes.push(LintFix::delete(a));
+                }
+                8 => {
+                    fixes.push(LintFix::create_before(a.clone(), edit(&mut rng)));
+                    fixes.push(LintFix::create_after(a.clone(), edit(&mut rng), None));
+                    fixes.push(LintFix::replace(a, edit(&mut rng), None));
+                }
+                9 => {
+                    fixes.push(LintFix::delete(a.clone()));
+                    fixes.push(LintFix::delete(a));
+                }
+                _ => {
+                    fixes.push(LintFix::create_after(a.clone(), edit(&mut rng), None));
+                    fixes.push(LintFix::create_after(a, edit(&mut rng), None));
+                }
+            }
+        }
+        if rng.chance(1, 2) {
+            rng.shuffle(&mut fixes);
+        }
+        let args = g_tuple(&[before.gs(), g_list(fixes.iter().map(fix_g))]);
+        let fixes_j: Vec<Value> = fixes.iter().map(fix_j).collect();
+        let r = catch(|| {
+            let mut info = compute_anchor_edit_info(fixes.clone().into_iter());
+            let (t, _, _, _) = tree.apply_fixes(&mut info);
+            t
+        });
+        out.count("synth_batches", 1);
+        let sample = json!({"input": {"dialect": it.dialect, "cfg": it.cfg.name, "sql": it.sql, "synth": it.synth}, "round": round, "fixes": fixes_j});
+        match r {
+            Ok(t) => {
+                let after = conv(&t);
+                if std::env::var("SQV_SHOW").is_ok() {
+                    eprintln!("ROUND {} fixes {}", round, serde_json::to_string(&fixes_j).unwrap());
+                    eprintln!("  BEFORE {}", before.gs());
+                    eprintln!("  AFTER  {}", after.gs());
+                }
+                out.case("synth", "synth", fixes.len() >= 3, args, format!("(Some {})", after.gs()), sample);
+            }
+            Err(msg) => {
+                // `unimplemented!()` of AnchorEditInfo::add is modelled (None); panics of the position
+                // code are not: only the former is compared
+                if msg.contains("not implemented") {
+                    out.count("synth_add_unimplemented", 1);
+                    out.case("synth", "synth-panic", true, args, "None".to_string(), sample);
+                } else {
+                    out.count("synth_unmodelled_panic", 1);
+                    out.hyp("synth_no_unmodelled_panic", "diagnostic", false, json!({"msg": msg, "sample": sample}));
+                }
+            }
+        }
+    }
+}
+
+/// hand-written probes: token pairs that spacing rules might make touch
+pub const FUSION_PROBES: &[(&str, &str)] = &[
+    ("ansi", "SELECT 1 - -2\n"),
+    ("ansi", "SELECT 1 - - 2\n"),
+    ("ansi", "SELECT a - -b FROM t\n"),
+    ("ansi", "SELECT - -1\n"),
+    ("ansi", "SELECT a -\n-1 FROM t\n"),
+    ("ansi", "SELECT 1 -\n    -2 FROM t\n"),
+    ("ansi", "SELECT a / -b, a * -b, a + +b FROM t\n"),
+    ("ansi", "SELECT a FROM t WHERE a < - 1 AND b > -1\n"),
+    ("ansi", "SELECT a . b FROM t\n"),
+    ("ansi", "SELECT t . * FROM t\n"),
+    ("ansi", "SELECT a [ 1 ] FROM t\n"),
+    ("ansi", "SELECT a :: int FROM t\n"),
+    ("ansi", "SELECT 1 ; ; SELECT 2 ;\n"),
+    ("ansi", "SELECT f ( a , b ) FROM t\n"),
+    ("ansi", "SELECT a , b , c FROM t\n"),
+    ("ansi", "SELECT a\n, b\n, c FROM t -- trailing comment that is very long and exceeds the maximum line length for sure\n"),
+    ("ansi", "SELECT a /* c1 */ , /* c2 */ b FROM t\n"),
+    ("ansi", "SELECT a -- c1\n, b -- c2\nFROM t\n"),
+    ("postgres", "SELECT a :: int, b -> 'x', c ->> 'y' FROM t\n"),
+    ("postgres", "SELECT 1 - -2, a @> b, a || - b FROM t\n"),
+    ("bigquery", "SELECT a [ OFFSET ( 0 ) ] , b . c FROM t\n"),
+    ("snowflake", "SELECT a : b :: string , c [ 0 ] FROM t\n"),
+    ("mysql", "SELECT 1 - -2 , `a` . `b` FROM t\n"),
+];
+
+/// minimised earlier failures that need a particular layout configuration
+pub const CFG_PROBES: &[(&str, &str, &str)] = &[
+    // LT05 moves the trailing comment inside the function name node; LT01 (touch:inline) then
+    // stripped the line break after it and the comment swallowed the code
+    ("ansi", "operator-trailing", "SELECT a\n   ||     to_varchar(date_part(hour, ts), 'xxxxxxxxxxxxxxxxxxxxxxxxxxxxxxxxxxxxxxxxxxxxxxxxxxxxxxxxxxxxx')  -- Concatenate labels and column values to output meaningful filenames.\nFROM t\n"),
+    ("ansi", "operator-trailing", "SELECT a\n   ||     to_varchar(date_part(hour, ts), 'xxxxxxxxxxxxxxxxxxxxxxxxxxxxxxxxxxxxxxxxxxxxxxxxxxxxxxxxxxxxx')  -- Concatenate labels and column values to output meaningful filenames\nFROM t\n"),
+    // LT05 moves the trailing comment in front of the first `select` of the line (inside its
+    // select clause); LT10 then took the comment for the SELECT keyword and moved `as struct` before `select`
+    ("bigquery", "default", "select as struct '1' as bb, 2 as aa; select distinct as struct '1' as bb, 2 as aa; -- Example of explicitly building a struct in a select clause.\n"),
+    // LT08 inserted the same newline segment twice (duplicate id)
+    ("ansi", "default", "WITH a AS (SELECT 1), b AS (SELECT 2) SELECT * FROM a\n"),
+    ("ansi", "default", "WITH a AS (\n    SELECT 1\n), b AS (\n    SELECT 2\n)\n\nSELECT * FROM a\n"),
+    // doubled unary operator
+    ("ansi", "default", "SELECT 8 | ~ ~ ~4, - - 1, a - -1\n"),
+    ("sparksql", "maxlen40", "SELECT /*+ COALESCE(3) */ a, b, c FROM t; SELECT /*+ REPARTITION(3) */ a, b, c FROM t; -- multiple partitioning hints\nSELECT /*+ REBALANCE */ a, b, c FROM t;\n"),
+    ("postgres", "default", "drop procedure delete_actor, update_actor CASCADE;\n"),
+    ("postgres", "maxlen20-after", "drop procedure delete_actor,\nupdate_actor\nCASCADE;\n"),
+    ("snowflake", "default", "CREATE OR REPLACE EXTERNAL FUNCTION f(a VARCHAR) RETURNS VARIANT API_INTEGRATION = x REQUEST_TRANSLATOR = db.s.fn RESPONSE_TRANSLATOR = db.s.fn2 AS 'https://x/y';\n"),
+];
+
+pub fn main(args: &Args) {
+    silence_panics();
+    let mut out = Out::new(&args.out);
+    let mut rng = Rng::new(args.seed);
+    let mut items: Vec<Item> = vec![];
+
+    if let Some(path) = args.flag("--replay-input") {
+        let v: Value = serde_json::from_str(&std::fs::read_to_string(path).unwrap()).unwrap();
+        let v = if v.get("input").is_some() { v["input"].clone() } else { v };
+        items.push(Item {
+            cls: "replay",
+            dialect: v["dialect"].as_str().unwrap_or("ansi").to_string(),
+            cfg: layout_cfg_by_name(v["cfg"].as_str().unwrap_or("default")),
+            sql: v["sql"].as_str().unwrap_or("").to_string(),
+            emit_cases: true,
+            synth: v["synth"].as_u64().unwrap_or(0) as usize,
+        });
+    } else {
+        for (d, sql) in FUSION_PROBES {
+            if !DIALECTS.contains(d) {
+                continue;
+            }
+            for cfg in LAYOUT_CFGS.iter().take(if args.thorough() { LAYOUT_CFGS.len() } else { 4 }) {
+                items.push(Item { cls: "probe", dialect: d.to_string(), cfg, sql: sql.to_string(), emit_cases: true, synth: 0 });
+            }
+        }
+        for (d, c, sql) in CFG_PROBES {
+            items.push(Item { cls: "probe", dialect: d.to_string(), cfg: layout_cfg_by_name(c), sql: sql.to_string(), emit_cases: true, synth: 0 });
+        }
+        let corpus = corpus();
+        // per-thread lexers are needed for the perturbations: build them here, single-threaded, with throwaway linters
+        let mut gen_linters: HashMap<String, Linter> = HashMap::new();
+        let (stride, n_cfg_per_file, max_len) = if args.thorough() { (1usize, 4usize, 12000usize) } else { (4usize, 1usize, 2500usize) };
+        let mut case_budget = if args.thorough() { 2500usize } else { 420usize };
+        let mut synth_budget = if args.thorough() { 6000usize } else { 600usize };
+        for (k, f) in corpus.iter().enumerate() {
+            if !DIALECTS.contains(&f.dialect.as_str()) || f.text.len() > max_len {
+                continue;
+            }
+            if (k + args.seed as usize) % stride != 0 {
+                continue;
+            }
+            let gl = gen_linters.entry(f.dialect.clone()).or_insert_with(|| mk_linter(&f.dialect, "layout", &LAYOUT_CFGS[0]));
+            let Ok(toks) = lex_tokens(gl, &f.text) else { continue };
+            let variants: Vec<(&'static str, String)> = vec![
+                ("corpus", f.text.clone()),
+                ("scrambled", scramble(&toks, &mut rng)),
+                ("collapsed", collapse(&toks)),
+            ];
+            if f.text.len() < 600 && synth_budget > 0 {
+                let n = if args.thorough() { 12 } else { 6 };
+                synth_budget = synth_budget.saturating_sub(n);
+                items.push(Item { cls: "synth", dialect: f.dialect.clone(), cfg: &LAYOUT_CFGS[0], sql: f.text.clone(), emit_cases: true, synth: n });
+            }
+            for (cls, sql) in variants {
+                for j in 0..n_cfg_per_file {
+                    let cfg = if j == 0 && cls == "corpus" { &LAYOUT_CFGS[0] } else { &LAYOUT_CFGS[rng.below(LAYOUT_CFGS.len())] };
+                    let emit = case_budget > 0 && sql.len() < 1500;
+                    if emit {
+                        case_budget -= 1;
+                    }
+                    items.push(Item { cls, dialect: f.dialect.clone(), cfg, sql: sql.clone(), emit_cases: emit, synth: 0 });
+                }
+            }
+        }
+    }
+    out.stat(json!({"items": items.len(), "layout_cfgs": LAYOUT_CFGS.iter().map(|c| c.name).collect::<Vec<_>>()}));
+    par_run(&mut out, &items, Linters::new, run_one);
+    out.finish();
 }
